@@ -19,13 +19,14 @@
    Quantifiers: every commutative ring with 1j*1j = -1, every e1, e2, every
    list `rest` of bosonic exponents (any types, any dims), every depth D, every
    column ADO n', every row functional z, every cached operator bb.
-   Partial (named in the theorem): the other exponents are bosonic; the merged
-   pair stands first in the list (any other position is reached by the
-   permutation theorems of Props/C19.v). *)
+   The other exponents may be of any types (fermionic ones must have their
+   partner among them); the merged pair stands first in the list (any other
+   position is reached by the re-ordering theorems of Props/C19.v and
+   Props/C19_ferm.v). *)
 From Coq Require Import List ZArith Bool Arith Lia Ring.
 Import ListNotations.
 From QV Require Import Model.C19 Model.C19_merge Proofs.C19 Proofs.C19_enum
-  Proofs.C19_gen Proofs.C19_merge.
+  Proofs.C19_gen Proofs.C19_perm Proofs.C19_merge.
 
 (* the column used below is exactly what HEOMSolver._rhs puts into that block
    column (rhs_ops is the model tied to the source by correspondence) *)
@@ -50,7 +51,31 @@ Hypothesis Rth : ring_theory c0 c1 cadd cmul (fun a b => cadd a (cneg b)) cneg e
 Hypothesis ceqb_eq : forall a b, ceqb a b = true -> a = b.
 Hypothesis ci_sq : cmul ci ci = cneg c1.
 
-(* T G_A = G_B T *)
+(* T G_A = G_B T, the other exponents of ANY types (bosonic, fermionic, mixed;
+   both parities): the only requirement on them is that every fermionic one has
+   its partner (sigma_bar_k_offset) inside `rest` *)
+Theorem C19_merge_intertwines_any_rest :
+  forall (e1 e2 : bexp C) (rest : list (bexp C)) (D : nat) (odd : bool),
+    wf C e1 -> wf C e2 -> can_combine C ceqb e1 e2 = true ->
+    e_dim C e1 = None -> e_dim C e2 = None ->
+    (forall j o, fermionic (e_type C (nthe C c0 rest j)) = true ->
+                 e_off C (nthe C c0 rest j) = Some o -> (0 <= Z.of_nat j + o)%Z) ->
+    let expsA := e1 :: e2 :: rest in
+    let expsB := combine2 C c0 cadd e1 e2 :: rest in
+    forall (n' : label) (z : label -> C) (bb : sbasis),
+      valid (heom_dims C expsA D) D n' ->
+      col_sum C c0 c1 cadd cmul cneg ci cconj cmap merge_label merge_weight expsA odd
+              (col_tags (heom_dims C expsA D) D n') z bb =
+      cmul (natC C c0 c1 cadd (merge_weight n'))
+           (col_sum C c0 c1 cadd cmul cneg ci cconj (fun x => x) (fun n => n) (fun _ => 1)
+                    expsB odd (col_tags (heom_dims C expsB D) D (merge_label n')) z bb).
+Proof.
+  intros e1 e2 rest D odd W1 W2 Hc Hd1 Hd2 Hoff expsA expsB n' z bb Hv.
+  exact (merge_intertwines C c0 c1 cadd cmul cneg ci cconj ceqb Rth ceqb_eq ci_sq
+           e1 e2 rest D odd W1 W2 Hc Hd1 Hd2 Hoff n' z bb Hv).
+Qed.
+
+(* the all-bosonic special case (kept under its earlier name) *)
 Theorem C19_merge_intertwines_bosonic_rest_partial :
   forall (e1 e2 : bexp C) (rest : list (bexp C)) (D : nat) (odd : bool),
     wf C e1 -> wf C e2 -> can_combine C ceqb e1 e2 = true ->
@@ -66,9 +91,9 @@ Theorem C19_merge_intertwines_bosonic_rest_partial :
            (col_sum C c0 c1 cadd cmul cneg ci cconj (fun x => x) (fun n => n) (fun _ => 1)
                     expsB odd (col_tags (heom_dims C expsB D) D (merge_label n')) z bb).
 Proof.
-  intros e1 e2 rest D odd W1 W2 Hc Hd1 Hd2 Hr expsA expsB n' z bb Hv.
-  exact (merge_intertwines C c0 c1 cadd cmul cneg ci cconj ceqb Rth ceqb_eq ci_sq
-           e1 e2 rest D odd W1 W2 Hc Hd1 Hd2 Hr n' z bb Hv).
+  intros e1 e2 rest D odd W1 W2 Hc Hd1 Hd2 Hr.
+  apply C19_merge_intertwines_any_rest; try assumption.
+  intros j o F _. rewrite (nthe_bos C c0 rest j Hr) in F. discriminate.
 Qed.
 
 (* T maps hierarchy A into hierarchy B, only rho_0 is mapped to rho_0, with
@@ -90,6 +115,7 @@ Proof.
   - reflexivity.
 Qed.
 End AnyRing.
+Print Assumptions C19_merge_intertwines_any_rest.
 Print Assumptions C19_merge_intertwines_bosonic_rest_partial.
 Print Assumptions C19_merge_map_fixes_rho0.
 
@@ -115,5 +141,33 @@ Proof.
   split; [reflexivity|]. cbv zeta. split; [reflexivity|]. split.
   - split; [reflexivity|]. split; [|simpl; lia].
     intros [|[|[|k]]] Hk; simpl in *; lia.
+  - split; vm_compute; reflexivity.
+Qed.
+
+(* non-vacuity with a fermionic pair among the other exponents, odd parity: the
+   partner condition holds (offsets +1, -1 inside `rest`) and both sides are the
+   same NON-ZERO number for the cached operator spre(Q^dag) of the '-' exponent
+   (index 3 before merging, 2 after) *)
+Example C19_nonvacuous_merge_fermionic_rest :
+  let e1 := mkexp TR None 0 (2, 1)%Z (3, 0)%Z None None in
+  let e2 := mkexp TI None 0 (1, -1)%Z (3, 0)%Z None None in
+  let fp := mkexp TPlus (Some 2) 1 (1, 2)%Z (1, 1)%Z None (Some 1%Z) in
+  let fm := mkexp TMinus (Some 2) 1 (2, -1)%Z (1, -1)%Z None (Some (-1)%Z) in
+  let z := fun n : label => ((Z.of_nat (lsum n) + 2)%Z, Z.of_nat (nth 0 n 0)) in
+  (forall j o, fermionic (e_type G (nthe G g0 [fp; fm] j)) = true ->
+               e_off G (nthe G g0 [fp; fm] j) = Some o -> (0 <= Z.of_nat j + o)%Z) /\
+  col_sum G g0 g1 gadd gmul gneg gi gconj cmap merge_label merge_weight [e1; e2; fp; fm] true
+          (col_tags (heom_dims G [e1; e2; fp; fm] 3) 3 [1; 1; 0; 1]) z (BPreD 2) = (-4, 8)%Z /\
+  gmul (natC G g0 g1 gadd (merge_weight [1; 1; 0; 1]))
+       (col_sum G g0 g1 gadd gmul gneg gi gconj (fun x => x) (fun n => n) (fun _ => 1)
+                [combine2 G g0 gadd e1 e2; fp; fm] true
+                (col_tags (heom_dims G [combine2 G g0 gadd e1 e2; fp; fm] 3) 3 [2; 0; 1]) z (BPreD 2))
+  = (-4, 8)%Z.
+Proof.
+  cbv zeta. split.
+  - intros [|[|j]] o F E.
+    + cbv in E. injection E as <-. lia.
+    + cbv in E. injection E as <-. lia.
+    + exfalso. destruct j; cbv in F; discriminate.
   - split; vm_compute; reflexivity.
 Qed.
